@@ -260,8 +260,9 @@ def merge_entry(c, a, b):
     return AttrEntry(a.kind, val, dom)
 
 
-def merge_states(c, base, a, b):
-    """Merge states a (cond c) and b (not c), both forked from `base`."""
+def merge_states(c, base, a, b, strict=False):
+    """Merge states a (cond c) and b (not c), both forked from `base`.  strict: a local that
+    cannot be merged makes the merge fail instead of being poisoned."""
     if set(a.heap) != set(b.heap):
         raise NoMerge("heap shape")
     out = a.fork()
@@ -271,6 +272,8 @@ def merge_states(c, base, a, b):
             try:
                 out.env[k] = merge_val(c, a.env[k], b.env[k])
             except NoMerge:
+                if strict:
+                    raise
                 out.env[k] = UNDEF  # poison: any later use makes the function 'unsupported', never a wrong verdict
         else:
             out.env[k] = UNDEF
